@@ -1,12 +1,13 @@
 """
 Fake filesystem for the storage-container harnesses (C22-C25, C28, C29): DESIGN section 2.4 "FakeFile".
 
-A file is a provenance run list (hlib.ProvBuf runs) covering [0, size):
-  * data regions are runs (source_tag, source_offset, length) with symbolic ints,
-  * header / lease records written through the struct stand-in are runs whose tag refers
-    to a PackedFields object (field list; no bit arithmetic), kept whole,
-  * holes and explicit zero fill are ZERO runs.
-Reads slice the run list (hlib.ProvBuf slicing, full symbolic positions) and come back as an FBuf;
+A file is a provenance run list [(tag, source_offset, length), ...] covering [0, size):
+  * data regions: tag = source name (str), symbolic ints for offset/length,
+  * header / lease records written through the struct stand-in: tag = the PackedFields object
+    (field list; no bit arithmetic), kept whole,
+  * holes and explicit zero fill: tag = ProvBuf.ZERO,
+  * other concrete bytes: tag = the bytes object.
+Reads slice the run list (symbolic positions) and come back as an FBuf (a hlib.ProvBuf);
 `FStruct.unpack` resolves each requested field against whatever lies at its offset: the field of a
 packed record (value as written), zeros (0 / NUL bytes), or a Garbage marker when the bytes there
 are data or a torn mix (what real code would read as an arbitrary number).
@@ -21,16 +22,45 @@ re-open as soon as it returned (process kill, not power loss: the OS keeps what 
 Module-level singleton `FS`; harness modules install `FS.open`, `FS.os`, `FS.fileutil` and
 `FStruct` into the namespace of the module under test once at import and call `FS.reset()` at the
 top of every harness function.
+
+Performance notes (measured): under CrossHair every class instantiation costs ~1 ms and every
+comparison of symbolic ints a solver query, so file contents are plain lists of tuples, the
+fixed-offset header area is kept apart from the symbolic-offset tail, and path-name bookkeeping
+(always concrete strings) runs with tracing switched off.
 """
 import errno
+import os.path as _p
 import stat as _stat
 
 from vlib import hlib
 from vlib.hlib import ProvBuf, PackedFields, FakeStruct, HarnessError
 
+try:
+    from crosshair.tracers import NoTracing
+except ImportError:                                   # pragma: no cover
+    import contextlib
+    NoTracing = contextlib.nullcontext
+
 ZERO = ProvBuf.ZERO
-_PF = "\x01pf"      # tag prefix of runs that refer to a PackedFields object
-_BY = "\x02by"      # tag prefix of runs that refer to a concrete bytes object
+
+
+def untraced(fn, types=(bytes,)):
+    """fn executed with CrossHair's tracing switched off (and memoised) when every argument is a real
+    concrete object of one of `types`; otherwise the plain traced call.  Same function, same result:
+    only the interpreter-level tracing of its (concrete) internals is skipped."""
+    memo = {}
+
+    def call(*args):
+        with NoTracing():
+            ok = all(type(a) in types for a in args)
+            if ok:
+                r = memo.get(args)
+                if r is None:
+                    r = memo[args] = fn(*args)
+                return r
+        return fn(*args)
+    call.__wrapped_real__ = fn
+    return call
 
 
 class Crash(BaseException):
@@ -49,29 +79,21 @@ class Garbage(object):
         return "<Garbage %s>" % (self.why,)
 
 
-_OBJS = []          # registry of PackedFields / bytes objects referred to by run tags (reset per call)
-
-
-def _reg(prefix, obj):
-    _OBJS.append(obj)
-    return "%s%d" % (prefix, len(_OBJS) - 1)
-
-
-def _obj(tag):
-    return _OBJS[int(tag[3:])]
-
-
 def _is_pf(tag):
-    return tag[:3] == _PF
+    return isinstance(tag, PackedFields)
 
 
 def _is_by(tag):
-    return tag[:3] == _BY
+    return isinstance(tag, bytes)
+
+
+def is_conc(x):
+    """True iff x is a real Python int (not a solver-backed integer)."""
+    with NoTracing():
+        return type(x) is int
 
 
 _SIZES = {"B": 1, "b": 1, "H": 2, "h": 2, "L": 4, "l": 4, "I": 4, "i": 4, "Q": 8, "q": 8}
-
-
 _LAYOUTS = {}
 _FIELDS = {}
 _CALC = {}
@@ -79,20 +101,17 @@ _CALC = {}
 
 def field_layout(fmt):
     """[(code, size, offset)] for a standard-size ('>' / '<' / '!' / '=') struct format."""
-    r = _LAYOUTS.get(fmt)
-    if r is None:
-        r = _LAYOUTS[fmt] = _field_layout(fmt)
-    return r
-
-
-def _field_layout(fmt):
-    out = []
-    off = 0
-    for (code, n) in FStruct._fields(fmt):
-        size = n if code == "s" else _SIZES[code]
-        out.append((code, size, off))
-        off += size
-    return out
+    with NoTracing():
+        r = _LAYOUTS.get(fmt)
+        if r is None:
+            r = []
+            off = 0
+            for (code, n) in FakeStruct._fields(fmt):
+                size = n if code == "s" else _SIZES[code]
+                r.append((code, size, off))
+                off += size
+            _LAYOUTS[fmt] = r
+        return r
 
 
 class Blob(object):
@@ -119,12 +138,29 @@ class BlobJoiner(object):
         return 0
 
 
+def _all_zero(rec):
+    """A packed record whose fields are all concretely zero is NUL bytes."""
+    with NoTracing():
+        for v in rec.values:
+            if type(v) is int:
+                if v != 0:
+                    return False
+            elif type(v) is bytes:
+                if v.strip(b"\x00"):
+                    return False
+            else:
+                return False
+        return True
+
+
 def to_runs(data):
     """Run list for a write payload."""
     if isinstance(data, ProvBuf):
         return list(data.runs)
     if isinstance(data, PackedFields):
-        return [(_reg(_PF, data), 0, data.size)]
+        if _all_zero(data):
+            return [(ZERO, 0, data.size)]
+        return [(data, 0, data.size)]
     if isinstance(data, Blob):
         out = []
         for p in data.parts:
@@ -135,7 +171,7 @@ def to_runs(data):
             return []
         if bytes(data) == b"\x00" * len(data):
             return [(ZERO, 0, len(data))]
-        return [(_reg(_BY, bytes(data)), 0, len(data))]
+        return [(bytes(data), 0, len(data))]
     raise HarnessError("FakeFile.write: unsupported payload %r" % (type(data),))
 
 
@@ -148,7 +184,7 @@ def payload_kind(data):
     if isinstance(data, ProvBuf):
         kinds = []
         for (t, _o, _n) in data.runs:
-            k = "zeros" if t == ZERO else ("rec" if _is_pf(t) else "data")
+            k = "zeros" if (isinstance(t, str) and t == ZERO) else ("rec" if _is_pf(t) else "data")
             if not kinds or kinds[-1] != k:
                 kinds.append(k)
         return "+".join(kinds) if kinds else "empty"
@@ -157,9 +193,83 @@ def payload_kind(data):
     return type(data).__name__
 
 
+# ---- run-list primitives (lists of tuples; no object construction) -------------------------------
+
+def runs_len(runs):
+    n = 0
+    for (_t, _o, ln) in runs:
+        n = n + ln
+    return n
+
+
+def runs_prefix(runs, q):
+    """runs[0:q] (runs are in file order, so scanning stops at the first run that reaches q)."""
+    out = []
+    base = 0
+    for (t, o, n) in runs:
+        e = base + n
+        if e <= q:
+            out.append((t, o, n))
+            base = e
+            continue
+        if base < q:
+            out.append((t, o, q - base))
+        break
+    return out
+
+
+def runs_suffix(runs, s):
+    """runs[s:] (runs after the first one that extends beyond s are taken over without comparisons)."""
+    out = []
+    base = 0
+    i = 0
+    for (t, o, n) in runs:
+        i += 1
+        e = base + n
+        if e <= s:
+            base = e
+            continue
+        if base < s:
+            out.append((t, o + (s - base), e - s))
+        else:
+            out.append((t, o, n))
+        out.extend(runs[i:])
+        break
+    return out
+
+
+def runs_slice(runs, start, stop):
+    """runs[start:stop] for 0 <= start (stop may exceed the length).  May contain empty runs."""
+    if stop <= start:
+        return []
+    return runs_prefix(runs_suffix(runs, start), stop - start)
+
+
+def runs_nonempty(runs):
+    return [r for r in runs if r[2] > 0]
+
+
+def runs_at(runs, p):
+    """(tag, source offset) of byte p; None if out of range."""
+    if p < 0:
+        return None
+    base = 0
+    for (t, o, n) in runs:
+        if p < base + n:
+            if isinstance(t, str) and t == ZERO:
+                return (t, 0)
+            return (t, o + (p - base))
+        base = base + n
+    return None
+
+
 class FBuf(ProvBuf):
     """What FakeFile.read returns: a ProvBuf whose runs may refer to packed records."""
     __slots__ = ()
+
+    def __init__(self, runs=()):
+        # runs come from runs_slice: already non-empty
+        self.runs = runs if isinstance(runs, list) else list(runs)
 
     def __getitem__(self, key):
         r = ProvBuf.__getitem__(self, key)
@@ -171,7 +281,7 @@ class FBuf(ProvBuf):
                 return len(self.runs) == 0
             if len(self) != len(other):
                 return False
-            v = resolve_field(self, "s", len(other), 0)
+            v = resolve_field(self.runs, "s", len(other), 0)
             return (not isinstance(v, Garbage)) and v == bytes(other)
         return ProvBuf.__eq__(self, other)
 
@@ -184,32 +294,31 @@ class FBuf(ProvBuf):
     __hash__ = None
 
 
-def resolve_field(buf, code, size, off):
-    """Value of the struct field (code, size) at byte offset `off` of the buffer `buf`."""
-    sub = ProvBuf.__getitem__(buf, slice(off, off + size))
-    runs = sub._canon()
-    if len(runs) == 1:
-        (t, o, n) = runs[0]
+def resolve_field(runs, code, size, off):
+    """Value of the struct field (code, size) at byte offset `off` of the run list."""
+    sub = runs_nonempty(runs_slice(runs, off, off + size))
+    if len(sub) > 1:
+        sub = ProvBuf(sub)._canon()
+    if len(sub) == 1:
+        (t, o, n) = sub[0]
         if n != size:
             return Garbage("short")
-        if t == ZERO:
-            return b"\x00" * size if code == "s" else 0
         if _is_pf(t):
-            rec = _obj(t)
-            for (c2, s2, o2), v in zip(field_layout(rec.fmt), rec.values):
+            for (c2, s2, o2), v in zip(field_layout(t.fmt), t.values):
                 if o2 == o and s2 == size:
                     if (c2 == "s") != (code == "s"):
                         return Garbage("field kind mismatch")
                     return v
-            # several whole fields viewed as one byte string (e.g. magic comparison on a prefix): not needed
             return Garbage("not a whole field of the record")
         if _is_by(t):
-            raw = _obj(t)[o:o + size]
+            raw = t[o:o + size]
             if code == "s":
                 return raw
             return int.from_bytes(raw, "big")
+        if t == ZERO:
+            return b"\x00" * size if code == "s" else 0
         return Garbage("data bytes")
-    if len(runs) == 0:
+    if len(sub) == 0:
         return Garbage("empty")
     return Garbage("torn")
 
@@ -219,17 +328,32 @@ class FStruct(FakeStruct):
 
     @classmethod
     def _fields(cls, fmt):
-        r = _FIELDS.get(fmt)
-        if r is None:
-            r = _FIELDS[fmt] = FakeStruct._fields.__func__(cls, fmt)
-        return r
+        with NoTracing():
+            r = _FIELDS.get(fmt)
+            if r is None:
+                r = _FIELDS[fmt] = FakeStruct._fields.__func__(cls, fmt)
+            return r
 
     @classmethod
     def calcsize(cls, fmt):
-        r = _CALC.get(fmt)
-        if r is None:
-            r = _CALC[fmt] = cls._real.calcsize(fmt)
-        return r
+        with NoTracing():
+            r = _CALC.get(fmt)
+            if r is None:
+                r = _CALC[fmt] = cls._real.calcsize(fmt)
+            return r
+
+    @classmethod
+    def pack(cls, fmt, *values):
+        fields = cls._fields(fmt)
+        if len(fields) != len(values):
+            raise cls.error("pack expected %d items for packing (got %d)" % (len(fields), len(values)))
+        for (code, n), v in zip(fields, values):
+            if code == "s":
+                continue
+            lo, hi = cls._RANGES[code]
+            if not (lo <= v < hi):
+                raise cls.error("'%s' format requires %d <= number <= %d" % (code, lo, hi - 1))
+        return PackedFields(fmt if isinstance(fmt, str) else fmt.decode("ascii"), values, cls.calcsize(fmt))
 
     @classmethod
     def unpack(cls, fmt, data):
@@ -244,145 +368,139 @@ class FStruct(FakeStruct):
             return cls._real.unpack(fmt, data)
         if not isinstance(data, ProvBuf):
             raise HarnessError("FStruct.unpack on %r" % (type(data),))
-        if len(data) != want:
+        return cls.unpack_runs(fmt, data.runs, want)
+
+    @classmethod
+    def unpack_runs(cls, fmt, runs, want=None):
+        if want is None:
+            want = cls.calcsize(fmt)
+        if len(runs) > 1:
+            runs = runs_nonempty(runs)
+        if runs_len(runs) != want:
             raise cls.error("unpack requires a buffer of %d bytes" % want)
         # fast path: exactly one whole record of the same shape
-        if len(data.runs) == 1:
-            (t, o, n) = data.runs[0]
-            if _is_pf(t) and o == 0:
-                rec = _obj(t)
-                if rec.size == want and cls._fields(rec.fmt) == cls._fields(fmt):
-                    return tuple(rec.values)
-        return tuple(resolve_field(data, code, size, off) for (code, size, off) in field_layout(fmt))
-
-
-def _is_conc(x):
-    return type(x) is int
+        if len(runs) == 1:
+            (t, o, n) = runs[0]
+            if _is_pf(t) and o == 0 and t.size == want and cls._fields(t.fmt) == cls._fields(fmt):
+                return tuple(t.values)
+        return tuple([resolve_field(runs, code, size, off) for (code, size, off) in field_layout(fmt)])
 
 
 class FileState(object):
     """
-    Content = head + tail.  `head` covers [0, len(head)) with len(head) <= H where H (`split`) is a
-    concrete int: the fixed-offset header area of the container (468 for mutable, 12 for immutable
-    containers).  Accesses with concrete position and length inside the head are plain Python (no
-    solver work); accesses at symbolic positions >= H only touch the tail run list.  Anything else
-    falls back to the joined run list.  The tail is empty while len(head) < H.
+    Content = head + tail.  `head` covers [0, hlen) with hlen <= H where H (`split`) is a concrete
+    int: the fixed-offset header area of the container (468 for mutable, 12 for immutable
+    containers); its run boundaries are concrete.  Accesses with concrete position and length
+    inside the head are plain Python (no solver work); accesses at symbolic positions >= H only
+    touch the tail run list.  Anything else falls back to the joined run list.  The tail is empty
+    while hlen < H.
     """
-    __slots__ = ("head", "tail", "tsize", "split")
+    __slots__ = ("head", "hlen", "tail", "tsize", "split")
 
-    def __init__(self, pieces=(), split=0):
+    def __init__(self, head=(), tail=(), tsize=0, split=0):
         self.split = split
-        self.head = ProvBuf()
-        self.tail = ProvBuf()
-        self.tsize = 0
-        runs = []
-        for p in pieces:
-            runs.extend(to_runs(p))
-        self._set(ProvBuf(runs))
-
-    def _set(self, whole, size=None):
-        H = self.split
-        # split at H; pieces given by the builders have concrete boundaries up to H
-        n = 0
-        k = 0
-        runs = whole.runs
-        while k < len(runs) and _is_conc(runs[k][2]) and n + runs[k][2] <= H:
-            n += runs[k][2]
-            k += 1
-        if n == H or k == len(runs):
-            self.head = ProvBuf(runs[:k])
-            self.tail = ProvBuf(runs[k:])
-            if n < H and k < len(runs):
-                raise HarnessError("FileState: cannot split at %d" % H)
-        else:
-            self.head = whole[:H]
-            self.tail = whole[H:]
-        self.tsize = len(self.tail) if size is None else size - len(self.head)
+        self.head = list(head)
+        self.hlen = 0
+        for (_t, _o, n) in self.head:
+            self.hlen += n
+        self.tail = list(tail)
+        self.tsize = tsize
+        if self.hlen > split or (self.tail and self.hlen != split):
+            raise HarnessError("FileState: head must cover exactly [0, split) when there is a tail")
 
     @property
     def size(self):
-        return len(self.head) + self.tsize
+        return self.hlen + self.tsize
 
     @property
     def content(self):
-        return ProvBuf(self.head.runs + self.tail.runs)
+        return ProvBuf(self.head + self.tail)
 
     def copy(self):
-        st = FileState(split=self.split)
-        st.head = ProvBuf(self.head.runs)
-        st.tail = ProvBuf(self.tail.runs)
-        st.tsize = self.tsize
-        return st
+        return FileState(self.head, self.tail, self.tsize, self.split)
+
+    def _set(self, runs, size):
+        """Re-split a joined run list (general / slow path)."""
+        H = self.split
+        self.head = runs_slice(runs, 0, H)
+        self.hlen = size if size < H else H
+        self.tail = runs_slice(runs, H, size) if size > H else []
+        self.tsize = size - self.hlen
+
+    def peek_runs(self, pos, n):
+        H = self.split
+        if is_conc(pos) and is_conc(n) and pos + n <= H:
+            return runs_slice(self.head, pos, pos + n)
+        if pos >= H:
+            return runs_slice(self.tail, pos - H, pos - H + n)
+        return runs_slice(self.head + self.tail, pos, pos + n)
 
     def peek(self, pos, n):
-        H = self.split
-        if _is_conc(pos) and _is_conc(n) and pos + n <= H:
-            return FBuf(self.head[pos:pos + n].runs)
-        if pos >= H:
-            return FBuf(self.tail[pos - H:pos - H + n].runs)
-        return FBuf(self.content[pos:pos + n].runs)
+        return FBuf(runs_nonempty(self.peek_runs(pos, n)))
 
     def at(self, pos):
         """(tag, source offset) of the byte at file position pos (None beyond EOF)."""
         H = self.split
         if pos >= H:
-            return self.tail.at(pos - H)
-        return self.head.at(pos)
+            return runs_at(self.tail, pos - H)
+        return runs_at(self.head, pos)
 
     def poke(self, pos, data):
         runs = to_runs(data)
-        n = 0
-        for (_t, _o, ln) in runs:
-            n = n + ln
+        n = runs_len(runs)
         if n == 0:
             return 0
         H = self.split
-        hl = len(self.head)
-        if _is_conc(pos) and _is_conc(n) and pos + n <= H:
+        if is_conc(pos) and is_conc(n) and pos + n <= H:
             h = self.head
-            if pos > hl:
-                h = ProvBuf(h.runs + [(ZERO, 0, pos - hl)])
-            self.head = ProvBuf(h[:pos].runs + runs + h[pos + n:].runs)
+            if pos > self.hlen:
+                h = h + [(ZERO, 0, pos - self.hlen)]
+            self.head = runs_slice(h, 0, pos) + runs + runs_slice(h, pos + n, H)
+            if pos + n > self.hlen:
+                self.hlen = pos + n
             return n
         if pos >= H:
-            if hl < H:
-                self.head = ProvBuf(self.head.runs + [(ZERO, 0, H - hl)])
+            if self.hlen < H:
+                self.head = self.head + [(ZERO, 0, H - self.hlen)]
+                self.hlen = H
             q = pos - H
             if q > self.tsize:
-                left = self.tail.runs + [(ZERO, 0, q - self.tsize)]
+                left = self.tail + [(ZERO, 0, q - self.tsize)]
+            elif q == self.tsize:
+                left = self.tail
             else:
-                left = self.tail[:q].runs
+                left = runs_prefix(self.tail, q)
             end = q + n
             if end < self.tsize:
-                right = self.tail[end:].runs
+                right = runs_suffix(self.tail, end)
             else:
                 right = []
                 self.tsize = end
-            self.tail = ProvBuf(left + runs + right)
+            self.tail = left + runs + right
             return n
         # general case: straddles the split
-        whole = self.content
+        whole = self.head + self.tail
         size = self.size
         if pos > size:
-            left = whole.runs + [(ZERO, 0, pos - size)]
+            left = whole + [(ZERO, 0, pos - size)]
         else:
-            left = whole[:pos].runs
+            left = runs_prefix(whole, pos)
         end = pos + n
         if end < size:
-            right = whole[end:].runs
+            right = runs_suffix(whole, end)
         else:
             right = []
             size = end
-        self._set(ProvBuf(left + runs + right), size)
+        self._set(left + runs + right, size)
         return n
 
     def truncate(self, size):
         cur = self.size
-        whole = self.content
+        whole = self.head + self.tail
         if size < cur:
-            self._set(whole[:size], size)
+            self._set(runs_slice(whole, 0, size), size)
         elif size > cur:
-            self._set(ProvBuf(whole.runs + [(ZERO, 0, size - cur)]), size)
+            self._set(whole + [(ZERO, 0, size - cur)], size)
 
 
 class FakeFile(object):
@@ -396,7 +514,7 @@ class FakeFile(object):
         return self
 
     def __exit__(self, *a):
-        self.close()
+        self.closed = True
         return False
 
     def close(self):
@@ -425,18 +543,18 @@ class FakeFile(object):
             n = self.st.size - self.pos
             if n < 0:
                 n = 0
-        r = self.st.peek(self.pos, n)
-        if not r.runs:
+        r = runs_nonempty(self.st.peek_runs(self.pos, n))
+        if not r:
             return b""
-        self.pos = self.pos + len(r)
-        return r
+        self.pos = self.pos + runs_len(r)
+        return FBuf(r)
 
     def write(self, data):
         if self.closed:
             raise ValueError("I/O operation on closed file")
         if not self.writable:
             raise IOError("file not open for writing")
-        self.fs.tick("write", self.path, payload_kind(data), pos=self.pos)
+        self.fs.tick("write", self.path, data, self.pos)
         n = self.st.poke(self.pos, data)
         self.pos = self.pos + n
         return n
@@ -446,7 +564,7 @@ class FakeFile(object):
             raise IOError("file not open for writing")
         if size is None:
             size = self.pos
-        self.fs.tick("truncate", self.path, "")
+        self.fs.tick("truncate", self.path, "", size)
         self.st.truncate(size)
         return size
 
@@ -462,25 +580,49 @@ class _StatResult(tuple):
 
 
 class _FakePath(object):
+    """os.path of the fake filesystem.  Path names are concrete strings: bookkeeping runs untraced."""
+
     def __init__(self, fs):
         self._fs = fs
-        import os.path as _p
-        self.join, self.dirname, self.split, self.basename = _p.join, _p.dirname, _p.split, _p.basename
-        self.abspath = _p.abspath
+
+    def join(self, *a):
+        with NoTracing():
+            return _p.join(*a)
+
+    def dirname(self, p):
+        with NoTracing():
+            return _p.dirname(p)
+
+    def basename(self, p):
+        with NoTracing():
+            return _p.basename(p)
+
+    def split(self, p):
+        with NoTracing():
+            return _p.split(p)
+
+    def abspath(self, p):
+        with NoTracing():
+            return _p.abspath(p)
 
     def exists(self, path):
-        return path in self._fs.files or path in self._fs.dirs
+        with NoTracing():
+            return path in self._fs.files or path in self._fs.dirs
 
     def isdir(self, path):
-        return path in self._fs.dirs
+        with NoTracing():
+            return path in self._fs.dirs
 
     def isfile(self, path):
-        return path in self._fs.files
+        with NoTracing():
+            return path in self._fs.files
 
     def getsize(self, path):
-        if path not in self._fs.files:
+        with NoTracing():
+            st = self._fs.files.get(path)
+        if st is None:
             raise _enoent(path)
-        return self._fs.files[path].size
+        return st.size
 
 
 class _FakeOS(object):
@@ -491,9 +633,12 @@ class _FakeOS(object):
 
     def stat(self, path):
         fs = self._fs
-        if path in fs.files:
-            return _StatResult((0o100644, 0, 0, 1, 0, 0, fs.files[path].size, 0, 0, 0))
-        if path in fs.dirs:
+        with NoTracing():
+            st = fs.files.get(path)
+            isdir = path in fs.dirs
+        if st is not None:
+            return _StatResult((0o100644, 0, 0, 1, 0, 0, st.size, 0, 0, 0))
+        if isdir:
             return _StatResult((0o040755, 0, 0, 1, 0, 0, 0, 0, 0, 0))
         raise _enoent(path)
 
@@ -502,25 +647,27 @@ class _FakeOS(object):
 
     def unlink(self, path):
         fs = self._fs
-        if path not in fs.files:
+        if not self.path.isfile(path):
             raise _enoent(path)
         fs.tick("unlink", path, "")
-        del fs.files[path]
+        with NoTracing():
+            del fs.files[path]
 
     remove = unlink
 
     def rmdir(self, path):
         fs = self._fs
-        if path not in fs.dirs:
+        if not self.path.isdir(path):
             raise _enoent(path)
         if fs.listdir(path):
             raise OSError(errno.ENOTEMPTY, "Directory not empty", path)
         fs.tick("rmdir", path, "")
-        fs.dirs.discard(path)
+        with NoTracing():
+            fs.dirs.discard(path)
 
     def makedirs(self, path, mode=0o777):
         fs = self._fs
-        if path in fs.dirs or path in fs.files:
+        if self.path.exists(path):
             raise OSError(errno.EEXIST, "File exists", path)
         fs.tick("makedirs", path, "")
         fs.add_dirs(path)
@@ -539,9 +686,9 @@ class _FakeFileutil(object):
 
     def make_dirs(self, dirname, mode=0o777):
         fs = self._fs
-        if dirname in fs.dirs:
+        if fs.os.path.isdir(dirname):
             return
-        if dirname in fs.files:
+        if fs.os.path.isfile(dirname):
             raise OSError(errno.EEXIST, "File exists", dirname)
         fs.tick("makedirs", dirname, "")
         fs.add_dirs(dirname)
@@ -551,11 +698,11 @@ class _FakeFileutil(object):
 
     def rm_dir(self, dirname):
         fs = self._fs
-        if dirname not in fs.dirs:
+        if not fs.os.path.isdir(dirname):
             return
         for name in fs.listdir(dirname):
             full = dirname + "/" + name
-            if full in fs.dirs:
+            if fs.os.path.isdir(full):
                 self.rm_dir(full)
             else:
                 fs.os.unlink(full)
@@ -573,41 +720,44 @@ class FakeFS(object):
         self.split_hint = 0      # concrete header size of containers created through open(path, "wb")
         self.reset()
 
-    def reset(self):
-        del _OBJS[:]
-        self.files = {}
-        self.dirs = set(["/"])
+    def reset(self, dirs=("/",)):
+        with NoTracing():
+            self.files = {}
+            self.dirs = set(dirs)
+            self.log = []
         self.nops = 0
         self.crash_at = None
-        self.log = []
         self.fileutil.avail = None
 
     # -- construction / inspection (harness side; no ticks) --------------
     def add_dirs(self, path):
-        import os.path as _p
-        while path and path not in self.dirs:
-            self.dirs.add(path)
-            path = _p.dirname(path)
+        with NoTracing():
+            while path and path not in self.dirs:
+                self.dirs.add(path)
+                path = _p.dirname(path)
 
-    def put(self, path, pieces, split=0):
-        import os.path as _p
-        self.add_dirs(_p.dirname(path))
-        st = FileState(pieces, split)
-        self.files[path] = st
+    def put(self, path, head, tail=(), tsize=0, split=0, mkdirs=True):
+        st = FileState(head, tail, tsize, split)
+        if mkdirs:
+            self.add_dirs(_p.dirname(path))
+        with NoTracing():
+            self.files[path] = st
         return st
 
-    def listdir(self, path):
-        if path not in self.dirs:
-            raise _enoent(path)
-        prefix = path.rstrip("/") + "/"
-        out = []
-        for p in list(self.files) + list(self.dirs):
-            if p.startswith(prefix) and p != path and "/" not in p[len(prefix):] and p[len(prefix):]:
-                out.append(p[len(prefix):])
-        return sorted(set(out))
+    def get(self, path):
+        with NoTracing():
+            return self.files.get(path)
 
-    def snapshot(self):
-        return dict((p, st.copy()) for (p, st) in self.files.items()), set(self.dirs)
+    def listdir(self, path):
+        with NoTracing():
+            if path not in self.dirs:
+                raise _enoent(path)
+            prefix = path.rstrip("/") + "/"
+            out = []
+            for p in list(self.files) + list(self.dirs):
+                if p.startswith(prefix) and p != path and "/" not in p[len(prefix):] and p[len(prefix):]:
+                    out.append(p[len(prefix):])
+            return sorted(set(out))
 
     # -- low-level calls ----------------------------------------------------
     def tick(self, op, path, detail, pos=None):
@@ -618,31 +768,35 @@ class FakeFS(object):
         self.log.append((op, path, detail, pos))
 
     def rename(self, src, dst):
-        import os.path as _p
-        if src not in self.files and src not in self.dirs:
+        with NoTracing():
+            isfile = src in self.files
+            ok_src = isfile or src in self.dirs
+            ok_dst = _p.dirname(dst) in self.dirs
+        if not ok_src:
             raise _enoent(src)
-        if _p.dirname(dst) not in self.dirs:
+        if not ok_dst:
             raise _enoent(dst)
-        self.tick("rename", src, dst)
-        if src in self.files:
-            self.files[dst] = self.files.pop(src)
-        else:
+        if not isfile:
             raise HarnessError("FakeFS.rename of directories is not modelled")
+        self.tick("rename", src, dst)
+        with NoTracing():
+            self.files[dst] = self.files.pop(src)
 
     def open(self, path, mode="r", *a, **kw):
-        import os.path as _p
         if "b" not in mode:
             raise HarnessError("FakeFS.open: text mode not modelled (%r)" % (mode,))
         if "w" in mode:
-            if _p.dirname(path) not in self.dirs:
+            if not self.os.path.isdir(_p.dirname(path)):
                 raise _enoent(path)
             self.tick("create", path, "")
             st = FileState(split=self.split_hint)
-            self.files[path] = st
+            with NoTracing():
+                self.files[path] = st
             return FakeFile(self, path, st, mode)
-        if path not in self.files:
+        st = self.get(path)
+        if st is None:
             raise _enoent(path)
-        return FakeFile(self, path, self.files[path], mode)
+        return FakeFile(self, path, st, mode)
 
 
 FS = FakeFS()
